@@ -431,7 +431,8 @@ def a64_queries(db):
         for arr in arrs:
             toks, dbops, nid, okf = [], [], 4, True
             for i, o in enumerate(ops):
-                d = {"kind": 0, "gp": False, "size": 0, "read": o["read"], "write": o["write"], "lo": 0, "width": 0, "follower": 0,
+                # only the run is judged on AArch64 rows (scope of C12); access letters are not
+                d = {"kind": 0, "gp": False, "size": 0, "read": False, "write": False, "lo": 0, "width": 0, "follower": 0,
                      "runLen": 0, "rmChecked": False, "memAlt": []}
                 if li <= i < li + n:
                     k = i - li
@@ -465,7 +466,7 @@ def a64_queries(db):
             if not okf:
                 qs.append({"line": None, "form": fi, "why": "operand not instantiated: " + " | ".join(o["data"] for o in ops)})
                 break
-            qs.append({"line": "a %s %s" % (f["name"], " ".join(toks)), "form": fi, "dbops": dbops, "variant": arr})
+            qs.append({"line": "a %s %s" % (f["name"], " ".join(toks)), "form": fi, "dbops": dbops, "variant": arr, "list_at": li})
     return qs
 
 
